@@ -29,7 +29,7 @@ pub fn run(ctx: &Ctx) -> Report {
         "rule",
         "E-HIST: per world (min_size in {0,1,5}, pre-existing file absent/0/min-1/min/min+1 bytes, open mode, roller) breadth-first exploration over append(0|1|3|6 bytes) and restart; \
          every transition replayed from scratch on the real appender with the real OnStartUpTrigger; per lifetime at most one rotation, only at the first record, iff size >= min_size; \
-         archive 0 == the pre-existing bytes and the active file starts with the first new record (directory == model after every step). E-SCHED part: see schedules_* keys",
+         archive 0 == the pre-existing bytes and the active file starts with the first new record (directory == model after every step). E-SCHED part: see schedules_* keys. Fault domain: the roller fails at every subset of its first two calls (min_size x pre-existing size x open mode): at most one roller call per lifetime, only during the first record",
     );
     let depth = ctx.tier.pick(6, 8);
     run_worlds(ctx, &mut rep, &worlds(ctx.tier), depth);
@@ -46,10 +46,105 @@ pub fn run(ctx: &Ctx) -> Report {
         hs.push((RSched { world: mk(1, Some(10), true), threads: 3, per_thread: 2, size: 24, chunks: 2, restart_after: None }, 2));
     }
     run_scheds(ctx, &mut rep, &hs);
+    failing_roller(&mut rep, None);
     rep
 }
 
+/// A roller that counts its calls and fails those of a plan (bit k of `plan` = call k fails, file left in place).
+#[derive(Debug)]
+struct PlanRoller {
+    calls: std::sync::Arc<std::sync::Mutex<Vec<u32>>>,
+    at: std::sync::Arc<std::sync::atomic::AtomicU32>,
+    plan: u32,
+}
+
+impl log4rs::append::rolling_file::policy::compound::roll::Roll for PlanRoller {
+    fn roll(&self, file: &std::path::Path) -> anyhow::Result<()> {
+        let mut c = self.calls.lock().unwrap();
+        let k = c.len() as u32;
+        c.push(self.at.load(std::sync::atomic::Ordering::SeqCst));
+        if self.plan >> k & 1 == 1 {
+            anyhow::bail!("planned failure of roll call #{}", k);
+        }
+        std::fs::remove_file(file)?;
+        Ok(())
+    }
+}
+
+/// Fault domain: the rotation requested at the first record *fails* (every subset of the first two roller calls
+/// failing).  Whatever the roller answers, the trigger's request is spent: per appender lifetime the roller is
+/// called at most once, and only while the first record is handled; no append panics.
+fn failing_roller(rep: &mut Report, only: Option<&serde_json::Value>) {
+    use log4rs::append::rolling_file::policy::compound::{trigger::onstartup::OnStartUpTrigger, CompoundPolicy};
+    use log4rs::append::{rolling_file::RollingFileAppender, Append};
+    use std::sync::{atomic::AtomicU32, atomic::Ordering, Arc, Mutex};
+    for min in [0u64, 1, 5] {
+        for pre in [None, Some(0usize), Some(4), Some(5), Some(6)] {
+            for append in [true, false] {
+                for plan in 0u32..4 {
+                    let case = serde_json::json!({"kind": "failing-roller", "min_size": min, "pre": pre, "append": append, "plan": plan});
+                    if let Some(o) = only {
+                        if *o != case {
+                            continue;
+                        }
+                    }
+                    let sb = crate::engine::sandbox::Sandbox::new();
+                    if let Some(n) = pre {
+                        std::fs::write(sb.path("app.log"), "P".repeat(n)).unwrap();
+                    }
+                    let calls = Arc::new(Mutex::new(vec![]));
+                    let at = Arc::new(AtomicU32::new(u32::MAX));
+                    let roller = PlanRoller { calls: calls.clone(), at: at.clone(), plan };
+                    let policy = CompoundPolicy::new(Box::new(OnStartUpTrigger::new(min)), Box::new(roller));
+                    let app = match RollingFileAppender::builder().append(append).encoder(Box::new(log4rs::encode::pattern::PatternEncoder::new("{m}"))).build(sb.path("app.log"), Box::new(policy)) {
+                        Ok(a) => a,
+                        Err(e) => {
+                            rep.violation("failing-roller:build-failed", e.to_string(), case.clone());
+                            continue;
+                        }
+                    };
+                    let mut history = vec![];
+                    for k in 0..3u32 {
+                        at.store(k, Ordering::SeqCst);
+                        let text = format!("[r{}]", k);
+                        let r = crate::engine::catch_panic(|| app.append(&log::Record::builder().level(log::Level::Info).args(format_args!("{}", text)).build()));
+                        history.push(format!("append#{}={}", k, match &r { Ok(Ok(())) => "Ok".to_string(), Ok(Err(e)) => format!("Err({})", e), Err(p) => format!("panic({})", p) }));
+                        if let Err(p) = r {
+                            rep.violation(format!("failing-roller:panic:{}", crate::engine::panic_site(&p)), format!("{:?}", history), case.clone());
+                            break;
+                        }
+                    }
+                    let c = calls.lock().unwrap().clone();
+                    rep.add("failing_roller_histories", 1);
+                    rep.add("traces_validated_against_impl", 1);
+                    if c.len() > 1 {
+                        rep.violation(
+                            "failing-roller:more-than-one-rotation-requested",
+                            format!("min_size={} pre={:?} append={} failing roller calls (bit set)={:#b}: the roller was called {} times (during appends {:?}) in one appender lifetime; {:?}", min, pre, append, plan, c.len(), c, history),
+                            case.clone(),
+                        );
+                    } else if c.iter().any(|k| *k != 0) {
+                        rep.violation(
+                            "failing-roller:rotation-requested-after-the-first-record",
+                            format!("min_size={} pre={:?} append={} plan={:#b}: roller called during append #{:?}; {:?}", min, pre, append, plan, c, history),
+                            case.clone(),
+                        );
+                    }
+                }
+            }
+        }
+    }
+}
+
 pub fn replay(case: &serde_json::Value) -> Result<(), String> {
+    if case["kind"] == "failing-roller" {
+        let mut rep = Report::new("model_checking");
+        failing_roller(&mut rep, Some(case));
+        return match rep.violations().first() {
+            Some(v) => Err(format!("{}: {}", v.signature, v.detail)),
+            None => Ok(()),
+        };
+    }
     if case["kind"] == "schedule" {
         return replay_sched_case(case);
     }
